@@ -204,21 +204,26 @@ func c16Scenario(p c16Params) *explore.Scenario {
 				bad("recover-count", fmt.Sprintf("the configured recovery function recovered %d panics, expected %d", n, panics))
 			}
 		} else {
+			// "by default it is logged": some record, at whatever level, must show the panic value
+			val := map[string]string{"string": "boom-string", "error": "boom-error", "struct": "42"}[p.Value]
+			if builtin {
+				val = "index out of range"
+			}
 			n := 0
 			for _, l := range o.Logs {
-				if l.Level == "error" && strings.Contains(fmt.Sprintf(l.Format, l.Args...), "panic") {
+				if strings.Contains(fmt.Sprintf(l.Format, l.Args...), val) {
 					n++
 				}
 			}
-			if n != panics {
-				bad("panic-not-logged", fmt.Sprintf("the default recovery logged %d panics, expected %d", n, panics))
+			if n < panics {
+				bad("panic-not-logged", fmt.Sprintf("the default recovery logged %d records showing the panic value %q, expected at least %d", n, val, panics))
 			}
 		}
 		// the connection is alive and responsive afterwards
 		if cnt("end connected=true") != 1 {
 			bad("connection-dropped", "the connection went down after a handler misbehaved")
 		}
-		if !strings.Contains(strings.Join(o.Conns[0].Lines(), "\n"), "PONG :still-alive") {
+		if !HasLine(o.Conns[0].Lines(), "PONG :still-alive") {
 			bad("later-event-not-delivered", "a PING sent after the misbehaving handler was not answered")
 		}
 		// nothing but the blocked-by-design handler is left
